@@ -65,7 +65,7 @@ def runProg : Prog → FS → List Choice → List Call
 /-- The oracle of the exhaustive exploration: the n-th call gets random part `n` and descriptor 5; `fails`
     says which calls fail although the model would let them succeed. -/
 def rndOf (n : Nat) : String :=
-  ["1", "2", "3", "4", "5", "6", "7", "8", "9", "10", "11", "12", "13", "14", "15", "16"].getD n "x"
+  ["1", "2", "3", "4", "5", "6", "7", "8", "9", "10", "11", "12", "13", "14", "15", "16", "17", "18", "19", "20", "21", "22", "23", "24", "25", "26", "27", "28", "29", "30", "31", "32", "33", "34", "35", "36", "37", "38", "39", "40"].getD n "x"
 
 def oracleOf (n : Nat) : List Bool → List Choice
   | [] => []
@@ -159,20 +159,24 @@ def cleanupP (t : Path) (fd : Nat) (closed : Bool) (k : Prog) : Prog :=
   if closed then removeP t k
   else .sys (.call (.close fd)) fun _ => removeP t k
 
-/-- `CloseAtomicallyReplace`, followed by the deferred `Cleanup` of the caller. -/
-def closeAtomicallyReplaceP (t : Path) (fd : Nat) (dest : Path) : Prog :=
+/-- `CloseAtomicallyReplace`, followed by the deferred `Cleanup` of the caller; `k failed` is what the caller
+    does with the result. -/
+def closeAtomicallyReplaceK (t : Path) (fd : Nat) (dest : Path) (k : Bool → Prog) : Prog :=
   .sys (.call (.fsync fd)) fun r =>
     match r with
-    | .err _ => cleanupP t fd false (.ret true)
+    | .err _ => cleanupP t fd false (k true)
     | _ =>
       .sys (.call (.close fd)) fun r =>              -- t.closed = true is set before Close
         match r with
-        | .err _ => cleanupP t fd true (.ret true)
+        | .err _ => cleanupP t fd true (k true)
         | _ =>
           osRenameP t dest fun r =>
             match r with
-            | .err _ => cleanupP t fd true (.ret true)
-            | _ => .ret false                         -- t.done = true: Cleanup is a no-op
+            | .err _ => cleanupP t fd true (k true)
+            | _ => k false                            -- t.done = true: Cleanup is a no-op
+
+def closeAtomicallyReplaceP (t : Path) (fd : Nat) (dest : Path) : Prog :=
+  closeAtomicallyReplaceK t fd dest .ret
 
 /-- `t.Write(data)` / the loop of io.Copy: one write call per chunk the kernel accepted. -/
 def writeAllP (fd : Nat) : List Seg → Prog → Prog → Prog
@@ -184,16 +188,44 @@ def writeAllP (fd : Nat) : List Seg → Prog → Prog → Prog
       | _ => writeAllP fd gs onErr k
 
 /-- renameio.WriteFile (writefile.go) and, on Linux, fstree.writeFile (fstree.go:283-302). -/
-def writeFileP (tmpdir dest : Path) (perm : Nat) (chunks : List Seg) : Prog :=
+def writeFileK (tmpdir dest : Path) (perm : Nat) (chunks : List Seg) (k : Bool → Prog) : Prog :=
   tempDirP none tmpdir dest fun d =>
     .sys (.createTemp d (tmpPrefix dest)) fun r =>
       match r with
       | .created t fd =>
         .sys (.call (.fchmod fd perm)) fun r =>
           match r with
-          | .err _ => cleanupP t fd false (.ret true)
-          | _ => writeAllP fd chunks (cleanupP t fd false (.ret true)) (closeAtomicallyReplaceP t fd dest)
-      | _ => .ret true
+          | .err _ => cleanupP t fd false (k true)
+          | _ => writeAllP fd chunks (cleanupP t fd false (k true)) (closeAtomicallyReplaceK t fd dest k)
+      | _ => k true
+
+def writeFileP (tmpdir dest : Path) (perm : Nat) (chunks : List Seg) : Prog :=
+  writeFileK tmpdir dest perm chunks .ret
+
+/-- os.MkdirAll(path, perm) (os/path.go): stat; parents first; mkdir; a failing mkdir is fine if the directory
+    exists by now. `fuel` bounds the recursion by the path length. -/
+def mkdirAllK : Nat → Path → Nat → (Bool → Prog) → Prog
+  | 0, _, _, k => k true
+  | fuel + 1, p, perm, k =>
+    .probeExists p fun there =>
+      if there then .probeDir p fun d => k (!d)
+      else
+        let mk : Prog :=
+          .sys (.call (.mkdir p perm)) fun r =>
+            match r with
+            | .err _ => .probeDir p fun d => k (!d)
+            | _ => k false
+        if p.length ≤ 1 then mk
+        else mkdirAllK fuel p.dropLast perm fun failed => if failed then k true else mk
+
+/-- fstree.Put after marshalling (fstree.go:119-145): writeFile; on ANY error create the directory and try once
+    more. The chunks of a successful attempt are the same data. -/
+def fstreePutP (tmpdir dest : Path) (chunks : List Seg) : Prog :=
+  writeFileK tmpdir dest 0o644 chunks fun failed =>
+    if !failed then .ret false
+    else mkdirAllK dest.length dest.dropLast 0o755 fun failed =>
+      if failed then .ret true
+      else writeFileK tmpdir dest 0o644 chunks .ret
 
 /-- utils.CreateAtomic (atomic.go:31-57): `mode = 0` skips the chmod; `readFails`: the reader returned an error
     after the chunks (io.Copy fails, nothing is published). -/
